@@ -9,7 +9,6 @@ use std::collections::HashMap;
 use std::sync::Arc;
 
 pub const REQ: &str = "Common.Base Core.Model_RowIds Core.Model_RowIdIndex";
-pub const CLASS_OVERLAP: &str = "rowid_index_overlapping_ranges";
 
 #[derive(Clone, Debug)]
 pub struct Frag {
@@ -99,7 +98,7 @@ pub fn case_index(sink: &mut Sink, st: &mut Stream, frags: &[Frag], probes: &[u6
     if !unique || map.keys().any(|k| *k == u64::MAX) {
         return; // outside the property's domain (ids are unique); correspondence only
     }
-    let cls = if ov { Some(CLASS_OVERLAP) } else { None };
+    let cls: Option<&str> = None; // F18 (overlapping ranges) is repaired: strict oracle on every layout
     match &r {
         Ok(Ok(v)) => {
             if probes.iter().zip(v).all(|(p, got)| *got == map.get(p).copied()) {
